@@ -1309,14 +1309,19 @@ static qtreetbl_obj_t *remove_obj(qtreetbl_t *tbl, qtreetbl_obj_t *obj,
         }
         if (cmp == 0) {
             // copy min to this then remove min
+            // the successor's name and data move into this object; the
+            // successor object takes the old ones and releases them in
+            // remove_min(), so nothing is allocated (and nothing can fail).
             qtreetbl_obj_t *minobj = find_min(obj->right);
             assert(minobj != NULL);
-            free(obj->name);
-            free(obj->data);
-            obj->name = qmemdup(minobj->name, minobj->namesize);
+            void *oldname = obj->name;
+            void *olddata = obj->data;
+            obj->name = minobj->name;
             obj->namesize = minobj->namesize;
-            obj->data = qmemdup(minobj->data, minobj->datasize);
+            obj->data = minobj->data;
             obj->datasize = minobj->datasize;
+            minobj->name = oldname;
+            minobj->data = olddata;
             obj->right = remove_min(obj->right);
             tbl->num--;
         } else {
